@@ -56,6 +56,11 @@ func genFz(r *simcore.Rand, tier string) any {
 	for i := 0; i < nt; i++ {
 		p.Tables = append(p.Tables, FzTable{Name: string(rune('a' + i)), NoSnappy: r.Bool(0.5), Group: groups[r.Intn(len(groups))]})
 	}
+	if r.Bool(0.3) {
+		for i := range p.Tables {
+			p.Tables[i].Group = "g"
+		}
+	}
 	nops := r.Range(3, 14)
 	if tier == "thorough" {
 		nops = r.Range(3, 40)
@@ -315,16 +320,33 @@ func runFzOnce(t *testing.T, p *FzPlan) *simcore.Result {
 				continue
 			}
 			cur := m.tails[op.Group]
-			if m.head <= cur {
-				continue
+			allInGroup := true
+			for _, tb := range p.Tables {
+				if tb.Group != op.Group {
+					allInGroup = false
+				}
 			}
-			n := cur + op.Arg%(m.head-cur+1)
+			var n uint64
+			if allInGroup && op.Arg%4 == 3 {
+				// tail beyond the head: every table is reset to the new tail (resetTo) and the
+				// freezer head follows; only meaningful when all tables share the group
+				n = m.head + 1 + op.Arg%3
+				res.Probe("truncate-tail-beyond-head")
+			} else {
+				if m.head <= cur {
+					continue
+				}
+				n = cur + op.Arg%(m.head-cur+1)
+			}
 			or.arg, or.group = n, op.Group
 			_, err := f.TruncateTail(op.Group, n)
 			or.ok, or.endEv = err == nil, rec.Len()
 			if err == nil {
 				if n > cur {
 					m.tails[op.Group] = n
+				}
+				if n > m.head {
+					m.head = n
 				}
 			} else if !faulty {
 				f.Close()
@@ -793,8 +815,14 @@ func (m *fzModel) reboot(model *simdisk.FSModel, img map[string][]byte, cut, dra
 			}
 		}
 	}
+	// a tail truncation beyond the head moves the head up to its target
+	for _, op := range started {
+		if op.kind == "ttail" && op.arg > maxAppended {
+			maxAppended = op.arg
+		}
+	}
 	if head > maxAppended {
-		return simcore.Violf("crash-phantom-items", "freezer head %d after recovery exceeds the %d items ever appended before the crash", head, maxAppended)
+		return simcore.Violf("crash-phantom-items", "freezer head %d after recovery exceeds the %d items ever appended (or tail-truncated to) before the crash", head, maxAppended)
 	}
 	// 4. the recovered freezer accepts new items
 	_, err = f.ModifyAncients(func(w ethdb.AncientWriteOp) error {
